@@ -3189,7 +3189,7 @@ class Serializer:
     def _new_namespace_declaration(self, namespace: str):
         for i in range(2**16):
             prefix = f"ns{i}:"
-            if prefix not in self._prefixes.values():
+            if prefix not in self._prefixes.values() and f"ns{i}" not in self._namespaces:
                 self._prefixes[namespace] = prefix
                 return
         else:
